@@ -752,7 +752,8 @@ static void op_new (char **w, int n)
       "stun-max-retransmissions", atoi (kv (w, n, "rc", "3")),
       "ice-tcp", atoi (kv (w, n, "icetcp", "0")), "ice-udp", atoi (kv (w, n, "iceudp", "1")),
       "keepalive-conncheck", atoi (kv (w, n, "keepalive", "0")),
-      "max-connectivity-checks", atoi (kv (w, n, "maxchecks", "100")), NULL);
+      "max-connectivity-checks", atoi (kv (w, n, "maxchecks", "100")),
+      "idle-timeout", atoi (kv (w, n, "idle", "5000")), NULL);
   if (kv (w, n, "stunsrv", NULL)) {
     struct sockaddr_in sa; char ip[32];
     if (parse_ipport (kv (w, n, "stunsrv", NULL), &sa)) {
